@@ -48,6 +48,9 @@ CHECKS = {
  "C14": (G, "exploration", "exhaustive enumeration of (start, span -400..2000, k 0..64) against a set-of-days model; range API vs per-day API",
          "num_days, partition and the range API agree with the set-of-days model for every enumerated range incl. reversed, empty and single-day ones.",
          "6 start dates; range API compared on a span subset.", "3/C14"),
+ "C15": ("sched", "model_checking", "stateless model checking of the real code under a controlled scheduler (exhaustive / preemption-bounded DFS over shuttle scheduling points) + explicit-state protocol model (stateright BFS) bound to the code by replaying every model trace on it and walking every code trace through the model",
+         "Every schedule of the real parallel range API for <= 3 partitions (unbounded DFS) and all schedules within the stated preemption bound for 3-6 partitions return exactly the sequential map and terminate; all reachable states of the protocol model for 1-7 partitions satisfy no-loss/no-duplicate/termination; every complete model trace for <= 3 partitions (and the bounded ones above) replays on the code event for event; 14k-60k (workers, days, threshold) configurations agree with the sequential result on real threads.",
+         "shuttle's channel/scoped-thread semantics stand in for std's (sequentially consistent); scheduling points = wrapped operations (+ after spawn / before sender drop).", "3/C15"),
  "C16": (G, "exploration", "exhaustive enumeration of a 0.25/0.5 deg lat/lon grid plus special meridians/parallels against an independent 3-D vector bearing",
          "Every grid point agrees with the vector bearing within 1e-6 deg, lies in (-180,180], label/text agree with the sign, elevation-independent.",
          "Spherical Earth; library's Kaaba constants.", "3/C16"),
